@@ -539,6 +539,13 @@ func badTexts(t reflect.Type) []string {
 			"1e309+2i", "-1e309+2i", "1.8e308+2i", "1e400+2i", "1+1e309i", "1-1e309i", "1-1.8e308i", "1+1e400i", "(1e309-2i)", "1e309", "-1e400i"}
 	case reflect.Slice:
 		out := []string{`"abc`, `a,"b`, `'a'`, "a,'b'", "`abc"}
+		inner := t.Elem()
+		for inner.Kind() == reflect.Slice {
+			inner = inner.Elem()
+		}
+		if inner.Kind() == reflect.String {
+			return out // any list of words is a list (of lists) of strings
+		}
 		if t.Elem().Kind() != reflect.String {
 			for _, b := range badTexts(t.Elem()) {
 				if b == "" || strings.ContainsAny(b, " ") {
@@ -546,7 +553,7 @@ func badTexts(t reflect.Type) []string {
 				}
 				out = append(out, b, "1,"+b)
 			}
-			if t.Elem().Kind() != reflect.Bool && t.Elem() != durationT {
+			if inner.Kind() != reflect.Bool && inner != durationT {
 				out = append(out, "1,x,3")
 			}
 		}
